@@ -929,12 +929,21 @@ func (s *Session) Close() error {
 	return s.closeSession()
 }
 
+// closeSession must be called with the output stream and the state mutex
+// locked.
 func (s *Session) closeSession() error {
 	if s.state&OutputStreamClosed == OutputStreamClosed {
 		return nil
 	}
 
 	s.state |= OutputStreamClosed
+	// Do not hold the state mutex while writing to the connection: reading from
+	// the session checks the state too, so if the write blocks until the peer
+	// reads, and the peer is itself waiting for us to read what it sent first,
+	// neither side would ever make progress.
+	// The output stream is still locked, which keeps other writers out.
+	s.stateMutex.Unlock()
+	defer s.stateMutex.Lock()
 	// We wrote the opening stream instead of encoding it, so do the same with the
 	// closing to ensure that the encoder doesn't think the tokens are mismatched.
 	return intstream.Close(s.Conn(), &s.out.Info)
